@@ -40,7 +40,12 @@ impl Task {
     fn run(&self) -> Result<(), String> {
         match self {
             Task::Hash { id, msg, exp } => {
-                // incremental in two pieces, to involve the buffer too
+                // incremental in two pieces, to involve the buffer too; the message is read from an
+                // odd offset of a buffer of this call's own (a payload behind a header)
+                let off = 1 + msg.len() % 15;
+                let mut store = vec![0u8; msg.len() + 16];
+                store[off..off + msg.len()].copy_from_slice(msg);
+                let msg = &store[off..off + msg.len()];
                 let mut h = id.new();
                 let cut = msg.len() / 3;
                 h.update(&msg[..cut]);
@@ -124,7 +129,7 @@ fn make_tf(r: &mut Rng, nb: usize) -> Task {
 }
 
 /// One task per one-time-initialised entry point.
-fn entry_tasks(r: &mut Rng) -> Vec<Task> {
+fn entry_tasks(r: &mut Rng, bulk: bool) -> Vec<Task> {
     let small = cfg!(miri);
     let mut v = Vec::new();
     let h = |fam, bits| HashId { fam, bits, out: if fam == Fam::Skein { 32 } else { bits as usize / 8 } };
@@ -141,7 +146,6 @@ fn entry_tasks(r: &mut Rng) -> Vec<Task> {
     }
     // one trial in three is a "bulk" trial: requests of several KiB per call, so that code paths
     // reserved for large inputs (and anything they share between threads) run concurrently too
-    let bulk = r.below(3) == 0;
     let hl = |n: u64| if bulk { 12 * n } else { n };
     for bits in [224u32, 256, 384, 512] {
         v.push(make_hash(r, h(Fam::Groestl, bits), hl(400)));
@@ -321,7 +325,15 @@ fn trial_handoff(cx: &mut Ctx, nthreads: usize, seed: u64) {
 
 fn trial_threads(cx: &mut Ctx, nthreads: usize, nmixed: usize, seed: u64) {
     let mut r = Rng::new(seed);
-    let tasks = Arc::new(entry_tasks(&mut r));
+    let bulk = r.below(3) == 0;
+    let tasks = Arc::new(entry_tasks(&mut r, bulk));
+    // in half of the trials every thread has data of its own (same entry points, other keys and
+    // messages): whatever leaks from one instance into another then shows in the results
+    let private = !cfg!(miri) && (seed >> 4) & 1 == 0;
+    let lists: Vec<Arc<Vec<Task>>> = (0..nthreads)
+        .map(|t| if private && t > 0 { Arc::new(entry_tasks(&mut Rng::new(mix(&[seed, 0x7a5c, t as u64])), bulk)) } else { tasks.clone() })
+        .collect();
+    cx.log.class(if private { "data=per-thread" } else { "data=shared" });
     let nent = tasks.len();
     let barrier = Arc::new(Barrier::new(nthreads));
     let seq = Arc::new(AtomicU64::new(0));
@@ -337,7 +349,7 @@ fn trial_threads(cx: &mut Ctx, nthreads: usize, nmixed: usize, seed: u64) {
     cx.log.class(if lockstep { "order=lockstep" } else { "order=per-thread-random" });
     let mut hs = Vec::new();
     for t in 0..nthreads {
-        let (tasks, barrier, seq, errors, marks, common) = (tasks.clone(), barrier.clone(), seq.clone(), errors.clone(), marks.clone(), common.clone());
+        let (tasks, barrier, seq, errors, marks, common) = (lists[t].clone(), barrier.clone(), seq.clone(), errors.clone(), marks.clone(), common.clone());
         let tseed = mix(&[seed, t as u64]);
         hs.push(std::thread::spawn(move || {
             let mut r = Rng::new(tseed);
